@@ -82,6 +82,10 @@ CLAIMED = {
    "Thin structural part, decided on every run: each t-test has its documented error returns and produces a result only after its guards; for every success path (enumerated by abstract interpretation) the t statistic and degrees of freedom equal the textbook formulas as rational functions with sqrt uninterpreted (pooled, Welch, paired, one-sample); the three tails incl. two-sided = 2(1-F(|t|)); the t CDF's three cases (1/2 at 0, the incomplete-beta form, reflection); the normal CDF through erfc; the incomplete beta's log-domain prefactor, symmetry switch point and complement form; the R8 position and linear interpolation; Percentile reads values only when known sorted; nothing on the t distribution's path calls math.Gamma.",
    "Does NOT decide accuracy, monotonicity, range, inverse-CDF round trips, convergence of the continued fraction, or ulp-level agreement of descriptive statistics (all numerical); equality is over the reals, blind to cancellation and summation order. Trusted: go/types, go/ssa.",
    "path enumeration by abstract interpretation + rational-function identity with uninterpreted functions + who-may-call rule"),
+ "C16": ("DESIGN.md §4 C16",
+   "Structural conditions decided on every run: the layout adds, to every cell's text width, the column's entry of the same margin table the emitter pads with; the emitter pads each cell to the span's total width minus the margin and skips blank cells; widths are rune counts and byte lengths of strings appear only in emptiness tests; the header tree's per-key decision table (extend the current node iff the value equals the node's value, otherwise start a node at parent.Start+j of length 1) and the parent's key range for children; the text and CSV renderers read the same set of fields of the table data and format deltas through the same methods.",
+   "Does not decide the width-distribution algorithm for spans over shrink columns, that no line ends in blanks in general, or numeric equality of scaled text and CSV values to the printed precision. The renderers' cursor arithmetic (DESIGN R1) is not implemented. Trusted: go/types, go/ssa.",
+   "site rules over SSA (value provenance) + decision-table extraction + sibling field-set agreement"),
 }
 
 NOT_YET = "check not built yet in this round (planned in DESIGN.md); not claimed until its rules run clean on the unchanged tree"
